@@ -191,6 +191,69 @@ def stream_micro(ctx, built, ntables, oracle=None, max_rows=120, name="S-micro")
     return S
 
 
+def stream_sample1(ctx, built, ntables, max_rows=100, name="S-sample1"):
+    """the composed model (forest -> tree of all columns -> harvest -> safe values -> microdata) against the rows the real
+    Synthesizer(..., SingleClustering()).sample() generates, cell for cell; both unsafe RNGs recorded from the real run."""
+    import syndiffix.synthesizer as SY
+    from syndiffix import Synthesizer
+    from syndiffix.clustering.strategy import SingleClustering
+    R = ctx.rng
+    S = ctx.stream(name, "typed tables of 1..4 columns (bool/int/float/str/timestamp, nulls, implicit or explicit ids, random parameters): the real "
+                   "Synthesizer(SingleClustering).sample() with its two derived unsafe RNGs recorded; the model composes Forest.init, get_tree(all columns), "
+                   "harvest, analyze_tree (safe strings) and generate_microdata from the normalised table and the fitted convertors alone; compared: "
+                   "every generated cell (value and float), the number of RNG draws; non-trivial = >= 2 rows with >= 1 non-singular range, distinct by input")
+    for ti in range(ntables):
+        t = gen_typed_table(R, max_rows=max_rows, ncols=R.choice([1, 2, 2, 3, 3, 4]))
+        try:
+            convs, data, F, kind, ft = prepare(t)
+            syn = Synthesizer(t["df"], pids=t["pids"], anonymization_params=t["ap"], bucketization_params=t["bp"], clustering=SingleClustering())
+        except RecursionError:
+            continue
+        cap, recs = {}, []
+        orig_gen = SY.generate_microdata
+        def cap_gen(buckets, cvs, nulls, rng):
+            rows = orig_gen(buckets, cvs, nulls, rng); cap["rows"] = rows; cap["buckets"] = buckets; return rows
+        def derive():
+            r = TS.RecRandom(syn.forest.unsafe_rng.random()); recs.append(r); return r
+        syn.forest.derive_unsafe_rng = derive
+        SY.generate_microdata = cap_gen
+        err = None
+        try:
+            try:
+                out = syn.sample()
+            except (IndexError, ZeroDivisionError) as e:
+                err = type(e).__name__
+        finally:
+            SY.generate_microdata = orig_gen
+        ncols = len(convs); comb = list(range(ncols))
+        if err is None and len(recs) == 2 and "rows" in cap:
+            rows = cap["rows"]
+            hstream = [e[3] for e in recs[0].log if e[0] == "randint"]
+            mtoks = []
+            for e in recs[1].log:
+                if e[0] == "random": mtoks.append("u" + f2b(e[1]))
+                elif e[0] == "randint": mtoks.append(f"i{e[3]}")
+            exp = [" ".join(cell_tok(v) for v in row) for row in rows] + [f"drawn {len(hstream)} left 0"]
+        else:
+            S.count((repr(t["df"].values.tolist()), repr(t["ap"])), False, {"table": typed_summary(t), "skipped": err or "no single cluster"}, tag="skipped")
+            continue
+        req = ("sample1 " + " ".join(map(str, comb)) + " | " + str(ncols) + " " + " ".join(conv_tok(c) for c in syn.column_convertors)
+               + " | " + " ".join(map(str, hstream)) + " | " + " ".join(mtoks))
+        nonsing = any(i.min != i.max for b in cap["buckets"] for i in b.intervals)
+        S.count((repr(t["df"].values.tolist()), repr(t["pids"].values.tolist()) if t["pids"] is not None else None, repr(t["ap"]), repr(t["bp"])),
+                len(rows) >= 2 and nonsing, {"table": typed_summary(t), "rows": len(rows), "buckets": len(cap["buckets"]), "harvest_draws": len(hstream)},
+                tag="/".join(t["kinds"]))
+        if built:
+            got = TS.split_replies(drive(TS.forest_lines(ft, F, kind) + [req], timeout=900))
+            g = got[-1] if got else ["<no reply>"]
+            if exp != g:
+                k = next((i for i, (a, b) in enumerate(zip(exp, g)) if a != b), min(len(exp), len(g)))
+                S.mismatch({"table": typed_summary(t), "rows": len(rows)}, g[k] if k < len(g) else "<missing>", exp[k] if k < len(exp) else "<missing>",
+                           f"(row {k} of {len(exp)}/{len(g)})")
+    ctx.obligation(f"correspondence {name} (composed sample of one cluster, every cell exact)", "correspondence", S.d["mismatches"] == 0, f"{S.d['mismatches']} mismatches")
+    return S
+
+
 def stream_micro_synth(ctx, built, ncases, oracle=None, name="S-micro-synth"):
     """generate_microdata called directly on synthetic bucket lists: every convertor kind with encodings fitted on random columns, ranges that are
     singular / dyadic / clipped at the domain end / sharing a lower bound, null stand-ins on either side of the domain (positive and negative)."""
